@@ -544,7 +544,8 @@ pub fn run_property<P: Property>(p: P, args: RunArgs) -> i32 {
 
     // 1. committed regression replays (seconds-long replay tier)
     let mut regress_n = 0u64;
-    for f in regress_files(p.id()) {
+    let skip_regress = std::env::var("VERIF_NO_REGRESS").is_ok();
+    for f in regress_files(p.id()).into_iter().filter(|_| !skip_regress) {
         match load_case(&*p, &f) {
             Ok(case) => {
                 regress_n += 1;
